@@ -88,6 +88,9 @@ type streamableHTTPClientTransport struct {
 	client *Client
 }
 
+// maxSSELineSize bounds one line of the GET SSE stream (1 GiB: effectively the message size limit).
+const maxSSELineSize = 1 << 30
+
 // NotificationHandler is a handler for notifications.
 type NotificationHandler func(notification *JSONRPCNotification) error
 
@@ -711,6 +714,9 @@ func (t *streamableHTTPClientTransport) connectGetSSE(ctx context.Context) error
 // Handle GET SSE event stream
 func (t *streamableHTTPClientTransport) handleGetSSEEvents(ctx context.Context, body io.ReadCloser) error {
 	scanner := bufio.NewScanner(body)
+	// A single SSE line carries a whole JSON-RPC message; the scanner's default 64 KiB token
+	// limit would end the stream (silently, for the caller) at the first larger message.
+	scanner.Buffer(make([]byte, 0, bufio.MaxScanTokenSize), maxSSELineSize)
 	var eventID, eventData string
 
 	for scanner.Scan() {
